@@ -536,6 +536,12 @@ class BitEval:
             return c if isinstance(c, Top) else Top("undecided ite")
         if k == "bin":
             op = t[1]
+            # on non-negative bit vectors  x % 2^k  is  x & (2^k - 1)  and  x // 2^k  is  x >> k
+            rc_ = strip(t[3])
+            if op in ("%", "//") and is_const(rc_) and isinstance(rc_[1], int) and not isinstance(rc_[1], bool) and rc_[1] > 0 and (rc_[1] & (rc_[1] - 1)) == 0:
+                if op == "%":
+                    return self.ev(("bin", "&", t[2], ("const", rc_[1] - 1)))
+                return self.ev(("bin", ">>", t[2], ("const", rc_[1].bit_length() - 1)))
             a, b = self.ev(t[2]), self.ev(t[3])
             if isinstance(a, Top):
                 return a
@@ -596,6 +602,14 @@ class BitEval:
                 return ~a
             return Top(f"unary {t[1]}")
         if k == "cmp":
+            # x != 0 / x == 0 / x > 0 (x >= 0 bits) are the truth value of x and its negation: no case split needed
+            l_, r_ = strip(t[2]), strip(t[3])
+            if is_const(r_) and r_[1] == 0 and not isinstance(r_[1], bool) and t[1] in ("!=", "==", ">"):
+                tv = self.truth(self.ev(l_))
+                if isinstance(tv, bool):
+                    return tv if t[1] != "==" else (not tv)
+                if isinstance(tv, Pred):
+                    return tv if t[1] != "==" else Pred(tv.text, not tv.neg)
             return self.compare(t[1], self.ev(t[2]), self.ev(t[3]))
         if k == "bool":
             vals = [self.truth(self.ev(x)) for x in t[2]]
